@@ -2,8 +2,8 @@
     reads back as exactly the records successfully submitted so far, in order; a failed write contributes
     nothing; header and earlier blocks never change.  Statements only. *)
 From Coq Require Import Lia.
-From FA Require Import model.Base model.Varint model.Value model.Schema model.Codec model.Container
-                       proofs.CodecProofs proofs.ContainerProofs.
+From FA Require Import model.Base model.Varint model.Value model.Schema model.Codec model.Validate model.Write model.Container
+                       model.ContainerPy proofs.CodecProofs proofs.ContainerProofs proofs.ContainerPyProofs.
 
 Definition codec_ok (compress : bytes -> bytes) (decompress : bytes -> res bytes) : Prop :=
   forall b, decompress (compress b) = Ok b.
@@ -67,6 +67,43 @@ Theorem C07_header_kept : forall compress sync sync_interval meta ops,
   exists x, out (run compress sync (wcreate sync meta sync_interval) ops) = header_bytes meta sync ++ x.
 Proof. intros. exact (run_appends compress sync ops (wcreate sync meta sync_interval)). Qed.
 Print Assumptions C07_header_kept.
+
+
+(** ---- at the level of Python data: Writer.write(record) with or without the validation gate ---- *)
+
+(** a record rejected by the validation gate leaves stream, pending block and count exactly as they were:
+    no byte of it is emitted (C10's "rejects before emitting any byte", at the level of the writer state) *)
+Theorem C07_gate_rejects_without_trace : forall compress sync fuel wo e s st v,
+  validate fuel wo e s (Some v) = Ok false ->
+  pstep compress sync fuel wo true e s st (PWrite v) = (st, PRaised).
+Proof. intros. apply gate_rejects; [reflexivity|assumption]. Qed.
+Print Assumptions C07_gate_rejects_without_trace.
+
+(** a record the writer cannot encode contributes nothing, validated or not *)
+Theorem C07_failed_python_write_noop : forall compress sync fuel wo validator e s st v,
+  elab fuel wo e s v = WErr -> fst (pstep compress sync fuel wo validator e s st (PWrite v)) = st.
+Proof. intros. apply failed_write_noop. assumption. Qed.
+Print Assumptions C07_failed_python_write_noop.
+
+(** every Python-level history (records given as Python data; each write either elaborates, is rejected by
+    the gate, or fails to encode) is a container-level history, hence reads back as the records that were
+    successfully submitted *)
+Theorem C07_python_history : forall compress decompress, codec_ok compress decompress ->
+  forall e s n fuel, (n <= fuel)%nat -> forall sync, length sync = 16%nat -> Forall is_byte sync ->
+  forall efuel wo validator sync_interval meta ops ws hf,
+  lower_all efuel wo validator e s ops = Some ws ->
+  meta_ok meta -> Forall (op_ok e s n) ws -> small_run compress sync (wcreate sync meta sync_interval) ws ->
+  len (submitted ws) < 2 ^ 63 -> (3 <= hf)%nat ->
+  exists nb, forall k, (nb < k)%nat ->
+    read_container decompress e s fuel hf k
+      (out (flush compress sync (prun compress sync efuel wo validator e s (wcreate sync meta sync_interval) ops)))
+    = (submitted ws, EndOK).
+Proof.
+  intros compress decompress Hc e s n fuel Hf sync Hs Hsb efuel wo validator si meta ops ws hf Hl Hm Hok Hsm Hlen Hhf.
+  rewrite (prun_lowers compress sync efuel wo validator e s ops ws _ Hl).
+  exact (history_reads_back compress decompress Hc e s n fuel Hf sync Hs Hsb meta ws hf Hm Hok si Hsm Hlen Hhf).
+Qed.
+Print Assumptions C07_python_history.
 
 (** non-vacuity: write, failed write, write, flush, donor block, reopen, write -- null codec, interval 3 *)
 Example C07_example :
